@@ -23,7 +23,9 @@ TRUSTED = [
     "the lookup's view of the instance is the block input (cache key objects, question history): how the record manager, "
     "cache and history get there is C05/C06/C13",
     "not modelled: IPv6 scope ids, zc not yet started (async_wait_for_start is outside the timeout), the sync wrapper "
-    "ServiceInfo.request (run_coro_with_timeout), packet splitting of the query (never reached with < 30 known answers)",
+    "ServiceInfo.request (run_coro_with_timeout)",
+    "a query whose known answers do not fit one packet goes out as a TC train: the block's datagrams are read as one query (questions and "
+    "known answers merged); the TC bits, sizes and per-packet contents are C13's clause / C14's model",
 ]
 ASSUMPTIONS = [
     "event-loop axioms (DESIGN 4.7): a sleeping task resumes no later than its timer's due time; random draws lie in the requested interval "
@@ -321,14 +323,26 @@ def run_scenario(sc):
 # model line / implementation observation strings
 
 
+class SentQuery:
+    """the datagrams one block handed to `async_send`, read as ONE query: a query whose known answers do not fit one packet
+    is split by `DNSOutgoing.packets()` -- questions in the first datagram, known answers continued in the following ones, TC set
+    on all but the last (C13's clause; C14's packetisation).  That is legal behaviour, not a second query."""
+
+    def __init__(self, msgs):
+        self.msgs = msgs
+        self.questions = [q for m in msgs for q in m.questions]
+        self.tcs = [m.truncated for m in msgs]
+
+    def answers(self):
+        return [r for m in self.msgs for r in m.answers()]
+
+
 def parse_sent(datagrams, known=None):
     from zeroconf import DNSIncoming
 
     if not datagrams:
         return "-", None
-    if len(datagrams) > 1:
-        return "multi:%d" % len(datagrams), None
-    m = DNSIncoming(bytes.fromhex(datagrams[0]))
+    m = SentQuery([DNSIncoming(bytes.fromhex(d)) for d in datagrams])
     qs = sorted(q_ident(q) for q in m.questions)
     ans = sorted(ident_line(r) for r in m.answers()) if known is None else known
     return (";".join(qs) or "-") + "#" + (";".join(ans) or "-"), m
@@ -446,8 +460,6 @@ def oracle(sc, obs):
             want = None  # the property leaves later queries open when a type is forced
         line, m = parse_sent(b["sent"])
         if m is None:
-            if line.startswith("multi"):
-                out.append(("C18:query-split", "the query was split into %s datagrams" % line))
             continue
         bits = {q.unique for q in m.questions}
         if want is not None and bits != {want == 1}:
@@ -461,8 +473,6 @@ def oracle(sc, obs):
     #     within the last 999 ms: duplicate-question suppression, C13)
     for i, b in enumerate(gens):
         line, m = parse_sent(b["sent"])
-        if line.startswith("multi"):
-            continue
         asked_q = {(q.name.lower(), q.type) for q in m.questions if q.class_ == 1} if m is not None else set()
         f = b["fields"]
         for (qname, qtype) in ((f["name"], 33), (f["name"], 16), (f["server"] or f["name"], 1), (f["server"] or f["name"], 28)):
@@ -594,6 +604,14 @@ def gen_scenario(rng, idx):
             sc["pre"].append({"k": "srv", "name": "other._x._tcp.local.", "ttl": 120, "server": host, "port": 9, "age": 5})
         if rng.random() < 0.1:
             sc["pre"].append({"k": "a", "name": host, "ttl": 120, "addr": V4[0], "cls": 3, "age": 5})   # wrong class
+        if rng.random() < 0.03:
+            # more known answers than one packet holds (about 88 A records): the query goes out as a TC train.  The records are named
+            # like the instance (asked while no SRV is known: `server or name`) or like the host
+            owner = rng.choice(NAME_SPELLINGS + [host])
+            many_ttl = rng.choice([120, 4500])
+            for i in range(rng.choice([60, 90, 90, 150, 200])):
+                sc["pre"].append({"k": "a", "name": owner, "ttl": many_ttl, "addr": "0a01%02x%02x" % (i // 250, i % 250), "unique": True,
+                                  "age": rng.choice([1, 1000, many_ttl * 500 - 1, many_ttl * 500]) if rng.random() < 0.9 else age_for(many_ttl)})
         rng.shuffle(sc["pre"])
     # ---- arrivals
     cands = sorted(set(t for q in qtimes for t in (q - 1, q, q + 1) if t >= 0) | {timeout - 1, timeout, timeout + 1, 1, 199, 200})
